@@ -6,4 +6,6 @@ mod serial;
 #[cfg(kani)]
 mod codecs;
 #[cfg(kani)]
+mod message;
+#[cfg(kani)]
 mod playback_gen;
